@@ -129,6 +129,11 @@ def _run_check(prop, tier, seed, replay, workers, t_start, scratch):
 
     spec = mod.cases(tier, seed)
     cases = spec["cases"]
+    stride = int(os.environ.get("VERIF_STRIDE", "1"))  # development aid only: never set by registered commands
+    if stride > 1:
+        cases = cases[::stride]
+        spec["exhaustive"] = False
+        spec["bound"] = f"(DEV STRIDE {stride}) " + spec.get("bound", "")
     budget = float(os.environ.get("VERIF_BUDGET_S", spec.get("budget_s", 0)) or 0)
     nwork = workers or int(os.environ.get("VERIF_WORKERS", "16"))
     nwork = max(1, min(nwork, len(cases)))
